@@ -440,6 +440,14 @@ func (l *Lexer) readRawString() string {
 				result.WriteByte('`')
 				continue
 			}
+			if l.readPosition < len(l.input) {
+				// any other escape is kept as it is; the backslash and the character after
+				// it belong together (`a\\` ends after the escaped backslash)
+				result.WriteByte('\\')
+				l.ReadChar()
+				result.WriteByte(l.CurrentChar)
+				continue
+			}
 		}
 		if l.CurrentChar == '`' {
 			break
